@@ -469,6 +469,10 @@ func (g *jgen) genValue(s *JS, o *oracle) string {
 		for i := 0; i < n; i++ {
 			parts = append(parts, g.genValue(s.Inner, o))
 		}
+		if s.Inner.Kind == "arr" && g.rng.Intn(2) == 0 {
+			// an array of arrays: every other value has a nil inner slice next to non-nil ones
+			parts = append(parts, "Nil[]")
+		}
 		return "[" + strings.Join(parts, ",") + "]"
 	case "obj":
 		var parts []string
